@@ -66,16 +66,20 @@ let show_report = function
 
 let run d23 line =
   let (d, argv, libs) = parse_line line in
+  (* the premises of the theorems about run_project, evaluated on every
+     project whatever the outcome of the run *)
+  let prem = Printf.sprintf "\"canon_idempotent\": %b, \"depth_ok\": %b"
+      (Includes.canon_idempotent_b d) (Includes.depth_ok_b d argv) in
   match Includes.run_project d23 d argv libs with
   | Ok s ->
-    Printf.sprintf "{\"status\": \"ok\", \"read\": [%s], \"files\": [%s], \"reports\": [%s], \"canon_idempotent\": %b}"
+    Printf.sprintf "{\"status\": \"ok\", \"read\": [%s], \"files\": [%s], \"reports\": [%s], %s}"
       (Stdlib.String.concat ", " (Stdlib.List.map q s.Includes.ps_read))
       (Stdlib.String.concat ", " (Stdlib.List.map (fun (p, u) -> Printf.sprintf "[%s, %b]" (q p) u) s.Includes.ps_files))
       (Stdlib.String.concat ", " (Stdlib.List.map show_report s.Includes.ps_reports))
-      (Includes.canon_idempotent_b d)
-  | Err _ -> "{\"status\": \"err\"}"
-  | Panic _ -> "{\"status\": \"panic\"}"
-  | OutOfFuel -> "{\"status\": \"outoffuel\"}"
+      prem
+  | Err _ -> Printf.sprintf "{\"status\": \"err\", %s}" prem
+  | Panic _ -> Printf.sprintf "{\"status\": \"panic\", %s}" prem
+  | OutOfFuel -> Printf.sprintf "{\"status\": \"outoffuel\", %s}" prem
 
 let () =
   match Array.to_list Sys.argv with
